@@ -13,6 +13,9 @@ import (
 	"unicode/utf8"
 
 	"ariga.io/atlas/sql/migrate"
+	"ariga.io/atlas/sql/sqlite"
+	"ariga.io/atlas/sql/postgres"
+	"ariga.io/atlas/sql/mysql"
 
 	"verifharness/internal/clirun"
 	"verifharness/internal/out"
@@ -110,11 +113,15 @@ func genCLI(w *out.W, tier string) {
 	const tmpl = `{{ range .Files }}{{ $f := . }}{{ range .Reports }}{{ range .Diagnostics }}{{ .Pos }}:{{ $f.Line .Pos }} {{ end }}{{ end }}{{ end }}`
 	n := 0
 	var texts []string
+	defer driverReuse(w)
 	defer func() {
 		fileReuse(w, append(texts, "A;\nB;\n", "-- c\nA;\n\n-- d\nB;\n", "-- header\n\nCREATE TABLE t (\n  id int\n);\nDROP TABLE t;\n", ""))
 	}()
 	for fi := 0; fi < nfiles; fi++ {
 		text, drops := genLintFile(r, fi)
+		if fi%4 == 3 { // the same file as a CRLF checkout has it
+			text, drops = crlf(text, drops)
+		}
 		texts = append(texts, text)
 		dir := filepath.Join(root, fmt.Sprintf("d%d", fi))
 		var base strings.Builder
@@ -258,6 +265,92 @@ func fileReuse(w *out.W, texts []string) {
 						w.Violation(id, "file-reuse-pos", fmt.Sprintf("after AddDirective(%v): statement %q is not at Pos %d of the file's bytes %q", d, s.Text, s.Pos, f.Bytes()))
 						break
 					}
+				}
+			}
+		}
+	}
+}
+
+// crlf rewrites a lint file with CRLF line ends and moves the offsets of its DROP statements accordingly
+// (the line of each statement does not change).
+func crlf(text string, drops map[int]int) (string, map[int]int) {
+	var b strings.Builder
+	newOff := make(map[int]int, len(drops))
+	for i := 0; i < len(text); i++ {
+		if _, ok := drops[i]; ok {
+			newOff[b.Len()] = drops[i]
+		}
+		if text[i] == '\n' && (i == 0 || text[i-1] != '\r') {
+			b.WriteByte('\r')
+		}
+		b.WriteByte(text[i])
+	}
+	return b.String(), newOff
+}
+
+// driverReuse: the statements a driver's ScanStmts returns for an input are a function of that input. One
+// driver value scans input A (which ends with a pending comment group, switches the delimiter, or fails) and
+// then input B: B's statements, positions, texts and comments must equal those a driver value that never saw A
+// returns, for every dialect.
+func driverReuse(w *out.W) {
+	canon := func(ss []*migrate.Stmt, err error) string {
+		if err != nil {
+			return "err:" + errCanon(err)
+		}
+		var b strings.Builder
+		for _, s := range ss {
+			fmt.Fprintf(&b, "%d:%s:%s|", s.Pos, hx(s.Text), hx(strings.Join(s.Comments, "\x00")))
+		}
+		return b.String()
+	}
+	as := []string{
+		"A;\n-- atlas:nolint destructive\n", "A;\n-- trailing\n-- group\n", "-- atlas:delimiter $$\nA$$\nB$$\n", "DELIMITER //\nA//\nB//\n",
+		"A;\n-- c\n'unclosed", "A;\n/* never closed", "A;\n-- c\n(", "BEGIN\nA;", "-- only a comment\n", "",
+	}
+	bs := []string{"A;\nB;\n", "DROP TABLE t;\nCREATE TABLE u (id int);\n", "-- own\nA;\n\n-- second\nB;\n", "A$$B;\n", "A//\nB;\n"}
+	type scanner interface {
+		ScanStmts(string) ([]*migrate.Stmt, error)
+	}
+	mk := map[string]func() scanner{
+		"mysql":    func() scanner { return &mysql.Driver{} },
+		"postgres": func() scanner { return &postgres.Driver{} },
+		"sqlite":   func() scanner { return &sqlite.Driver{} },
+	}
+	n := 0
+	for _, name := range []string{"mysql", "postgres", "sqlite"} {
+		for ai, a := range as {
+			for bi, bIn := range bs {
+				n++
+				id := fmt.Sprintf("drvreuse-%s-%d-%d", name, ai, bi)
+				used := mk[name]()
+				func() {
+					defer func() { recover() }()
+					used.ScanStmts(a)
+				}()
+				var got, want string
+				func() {
+					defer func() {
+						if r := recover(); r != nil {
+							got = "panic"
+						}
+					}()
+					got = canon(used.ScanStmts(bIn))
+				}()
+				func() {
+					defer func() {
+						if r := recover(); r != nil {
+							want = "panic"
+						}
+					}()
+					want = canon(mk[name]().ScanStmts(bIn))
+				}()
+				w.ImplOnly(id, fmt.Sprintf("%s driver: scan %q, then %q", name, a, bIn))
+				w.Count("driver-reuse")
+				if ai < 8 {
+					w.NonTrivial(id)
+				}
+				if got != want {
+					w.Violation(id, "driver-scan-depends-on-history", fmt.Sprintf("%s driver: after scanning %q, the input %q scans to %s; a driver value that never saw the first input gives %s", name, a, bIn, got, want))
 				}
 			}
 		}
